@@ -90,8 +90,12 @@ def expected_graph(p):
         if st['kind'] == 'link' and st.get('libs'):
             for l in st['libs']:
                 libs_used_by.setdefault(l, set()).add(st['name'])       # l is the variable name lib<i> == library name
+    used = set(libs_used_by)
     for st in p.steps:
         if st['kind'] == 'compile':
+            if st['lib'] and st['owner'] not in used:
+                down[st['source']] = set()       # a library nothing links against is not part of the requested targets
+                continue
             d = {'compile:' + st['source'], 'link:' + st['owner']}
             if st['lib']:
                 for user in libs_used_by.get(st['owner'], ()):
